@@ -185,7 +185,10 @@ class ValScoreVC(V.VC):
             # v must be gemini_objective(y_pred, affinity) * len(X_batch)
             ok = isinstance(v, V.Opaque) and v.tag == "binop:Mult"
             score, w = (v.a if ok else (None, None))
-            xb = st.env.get("X_batch")
+            # the block, its predictions and its affinity are read off the accumulated term itself (not by local names)
+            yp = score.a[0] if isinstance(score, V.Opaque) and score.tag == "call:gemini_objective" and len(score.a) == 2 else None
+            aff = score.a[1] if yp is not None else None
+            xb = yp.a[0] if isinstance(yp, V.Opaque) and yp.tag == "call:clf.predict_proba" and len(yp.a) == 1 else None
             part = xb.a[1] if isinstance(xb, V.Opaque) and xb.tag == "gather" else None
             okx = part is not None and isinstance(xb.a[0], V.Opaque) and xb.a[0].tag == "X" and part.base == "range"
             self.prove("block: X_batch is X[j : j+batch_size]", st.assm, okx)
@@ -196,11 +199,8 @@ class ValScoreVC(V.VC):
             okw = isinstance(w, z3.ExprRef)
             self.prove("accumulate: weight of the block score is the number of samples in the block", st.assm,
                        (w == part.hi - part.lo) if (okw and part is not None) else False)
-            aff = st.env.get("affinity")
-            yp = st.env.get("y_pred")
-            oks = (isinstance(score, V.Opaque) and score.tag == "call:gemini_objective" and len(score.a) == 2
-                   and score.a[0] is yp and score.a[1] is aff)
-            okyp = isinstance(yp, V.Opaque) and yp.tag == "call:clf.predict_proba" and len(yp.a) == 1 and yp.a[0] is xb
+            oks = yp is not None
+            okyp = xb is not None
             self.prove("accumulate: block score is gemini_objective(clf.predict_proba(X_batch), affinity)", st.assm, bool(oks and okyp))
             okaff = False
             cond = None
